@@ -334,7 +334,7 @@ pub fn replay(r: &Value) {
     hooks::set_sched_hook(None);
 }
 
-fn programs(uni: &[corpus::u::U], thorough: bool) -> Vec<Vec<Vec<Op>>> {
+fn programs(uni: &[corpus::u::U], thorough: bool) -> (Vec<Vec<Vec<Op>>>, std::ops::Range<usize>) {
     let idx = |n: &str| uni.iter().position(|u| u.info.rust.starts_with(n)).unwrap();
     let (a, b, f, g, c, d, l) = (idx("UA"), idx("UB"), idx("UF"), idx("UG"), idx("UC"), idx("UD"), idx("UL"));
     let h = idx("UH");
@@ -360,12 +360,22 @@ fn programs(uni: &[corpus::u::U], thorough: bool) -> Vec<Vec<Vec<Op>>> {
         vec![vec![(a, Export)], vec![(g, Export)], vec![(a, Export)]],
         vec![vec![(c, ExportAll)], vec![(b, ExportAll)], vec![(l, Export)]],
     ];
+    // systematic part: every unordered pair of one-call threads over the whole universe x both entry
+    // points (incl. a thread racing with itself) - no hand-picking of which files or closures collide
+    let ops: Vec<Op> = (0..uni.len()).flat_map(|t| [(t, Export), (t, ExportAll)]).collect();
+    let pairs_from = ps.len();
+    for i in 0..ops.len() {
+        for j in i..ops.len() {
+            ps.push(vec![vec![ops[i]], vec![ops[j]]]);
+        }
+    }
+    let pairs = pairs_from..ps.len();
     if thorough {
         ps.push(vec![vec![(d, ExportAll)], vec![(d, ExportAll)]]);
         ps.push(vec![vec![(d, ExportAll)], vec![(g, ExportAll)], vec![(f, ExportAll)]]);
         ps.push(vec![vec![(a, Export), (b, Export), (f, Export)], vec![(g, Export), (f, Export), (a, Export)]]);
     }
-    ps
+    (ps, pairs)
 }
 
 pub fn run(args: &[String]) {
@@ -388,7 +398,8 @@ pub fn run(args: &[String]) {
     };
     hooks::set_sched_hook(Some(Arc::new(hook)));
 
-    for (pi, program) in programs(&uni, thorough).iter().enumerate() {
+    let (all_programs, pairs) = programs(&uni, thorough);
+    for (pi, program) in all_programs.iter().enumerate() {
         if !slice.mine(pi) {
             continue;
         }
@@ -528,7 +539,12 @@ pub fn run(args: &[String]) {
                 }
             }
         }
-        rep.count(&format!("program_{pi}_schedules"), execs);
+        if pairs.contains(&pi) {
+            rep.count("systematic_pair_programs", 1);
+            rep.count("systematic_pair_program_schedules", execs);
+        } else {
+            rep.count(&format!("program_{pi}_schedules"), execs);
+        }
         for (b, c) in per_bound.iter().enumerate() {
             rep.count(&format!("schedules_with_{b}_preemptions"), *c);
         }
